@@ -242,6 +242,10 @@ func (r *Replica) RunBlock(b *Block) *BlockRes {
 	}
 	res.AppHash = cm.Data
 	r.IndexBlock(b, res.Deliver)
+	r.ambient("after-commit", b, len(b.Txs))
+	if r.Panicked {
+		res.Aborted = true
+	}
 	return res
 }
 
@@ -250,7 +254,33 @@ func (r *Replica) RunBlock(b *Block) *BlockRes {
 // checking while the block executes. The results are ignored (mempool isolation is C07's subject); the
 // point is that single-replica histories see the same call mix a node sees.
 func (r *Replica) ambient(stage string, b *Block, k int) {
-	if !r.Ambient || len(b.Txs) == 0 || r.Panicked {
+	if !r.Ambient || r.Panicked {
+		return
+	}
+	// the mempool's other content: checked when it arrives (any moment) and re-checked after every commit
+	if n := len(b.Pool); n > 0 {
+		switch stage {
+		case "before-begin":
+			r.CheckTx(b.Pool[int(b.Height)%n])
+		case "after-end":
+			for _, tx := range b.Pool {
+				r.CheckTx(tx)
+				if r.Panicked {
+					return
+				}
+			}
+		case "after-commit":
+			for _, tx := range b.Pool {
+				r.CheckTx(tx)
+				if r.Panicked {
+					return
+				}
+			}
+		case "before-end":
+			r.CheckTx(b.Pool[(int(b.Height)+1)%n])
+		}
+	}
+	if len(b.Txs) == 0 || r.Panicked {
 		return
 	}
 	switch stage {
@@ -309,6 +339,10 @@ func (r *Replica) runUpToEnd(b *Block) *BlockRes {
 		return res
 	}
 	res.Updates = res.End.ValidatorUpdates
+	r.ambient("after-end", b, len(b.Txs))
+	if r.Panicked {
+		res.Aborted = true
+	}
 	return res
 }
 
